@@ -379,6 +379,10 @@ def generate(rng, n, tier):
     for tx, ty in [(("leaf", "Value", "items_contain", [], {"a": 1}), ("leaf", "Value", "items_contain", [], {"a": 1, "b": 2})),
                    (("leaf", "Value", "items_contain", [], {"a": 1, "b": 2}), ("leaf", "Value", "items_contain", [], {"a": 1})),
                    (("leaf", "Value", "items_contain", [], {}), ("leaf", "Value", "items_contain", [], {"a": 1})),
+                   (("leaf", "Value", "items_contain", [], {"a": 1}), ("leaf", "Value", "items_contain", [], {"b": 1})),
+                   (("leaf", "Value", "items_contain", [], {"b": 1}), ("leaf", "Value", "items_contain", [], {"a": 1})),
+                   (("leaf", "Value", "items_contain", [], {"a": 1, "b": 2}), ("leaf", "Value", "items_contain", [], {"a": 1, "c": 2})),
+                   (("leaf", "Value", "items_contain", [], {"a": 1, "c": 2}), ("leaf", "Value", "items_contain", [], {"a": 1, "b": 2})),
                    (("leaf", "Value", "is_instance", [int], {}), ("leaf", "Value", "is_instance", [int, str], {})),
                    (("leaf", "Value", "keys_contain_any_of", ["a", "b"], {}), ("leaf", "Value", "keys_contain_any_of", ["a"], {}))]:
         c = Case("eq_cond", {"x": terms.tree_desc(tx), "y": terms.tree_desc(ty), "mutation": "shape"})
